@@ -468,6 +468,7 @@ static void DecodeAdr(Word Index) {
                 disp = adr & 0xff;
             } else {
                 WrError(ErrNum_JmpDistTooBig);
+                return;
             }
         }
     }
